@@ -109,7 +109,9 @@ PROPS["C10"] = dict(
           "consumed evaluation or an intervening Generate; distinct = program texts + step sequence."),
     assumptions=PROG_ASSUMPTIONS,
     jobs=[dict(name="c10", run="^TestPropC10$", kind="rapid", shards=16, checks={"quick": 100000, "thorough": 1500000},
-               guard={"quick": 900, "thorough": 7200})],
+               guard={"quick": 900, "thorough": 7200}),
+          dict(name="library_histories", run="^TestPropLibraryHistories$", kind="rapid", shards=8, checks={"quick": 16000, "thorough": 400000},
+               guard={"quick": 900, "thorough": 3600})],
 )
 
 
@@ -535,3 +537,10 @@ _amend("C16", "representations, optionally with decoy keys",
        "representations, in half of the cases the map the implementation itself builds from a literal, bare or behind the wrapper "
        "values export.Format / export.Link / both, which are maps through ToMap; in these cases attributes may hold closures int -> int "
        "that the program calls, a quarter of them with attribute names get, size, isAvail; optionally with decoy keys")
+
+_amend("C10", "Non-trivial: a function saw >=2 distinct tuples",
+       "Second job (library_histories): ONE function that uses a closure or map the library builds from constants (createLowPass, "
+       "createInterpolation - also queried in falling order and outside of its table -, linearReg, a constant iirApply filter map; the "
+       "optimizer folds them into the function) is evaluated 2..8 times in sequence with 1..4 different irregularly sampled signals in a "
+       "drawn order; every outcome must equal the outcome of a freshly generated function evaluated once with the same signal. "
+       "Non-trivial: a function saw >=2 distinct tuples")
